@@ -318,3 +318,48 @@ h!(q_de_in_place_unique, {
     kani::cover!(ok);
     kani::cover!(!ok);
 });
+
+
+// ---- a payload that owns something: the deserialised value is moved into the allocation exactly once (nothing
+//      is destroyed while the handle is alive, in particular no stale / unwritten slot; one destruction with the handle)
+fn qd_drops() -> (u8, u8, u8, u8) {
+    unsafe { (QD_DROPS[0], QD_DROPS[1], QD_DROPS[2], QD_DROPS[3]) }
+}
+h!(q_de_arc_owned, {
+    let ok: bool = kani::any();
+    let v: u8 = kani::any();
+    kani::assume(v != 254);
+    unsafe { DE_RESULT = if ok { Ok(v) } else { Err(v) } };
+    let r = <Arc<Qd> as Deserialize>::deserialize(De(0));
+    assert!(unsafe { DE_CALLS } == 1);
+    match r {
+        Ok(a) => {
+            assert!(ok && a.1 == v && a.0 == 1);
+            assert!(qd_drops() == (0, 0, 0, 0), "something was destroyed while the deserialised handle is alive");
+            assert!(Arc::count(&a) == 1 && n_live() == 1);
+            drop(a);
+            assert!(qd_drops() == (0, 1, 0, 0) && n_live() == 0, "the deserialised value must be destroyed exactly once, with its handle");
+        }
+        Err(_) => assert!(!ok && qd_drops() == (0, 0, 0, 0) && n_live() == 0),
+    }
+    kani::cover!(ok);
+});
+h!(q_de_unique_owned, {
+    let ok: bool = kani::any();
+    let v: u8 = kani::any();
+    kani::assume(v != 254);
+    unsafe { DE_RESULT = if ok { Ok(v) } else { Err(v) } };
+    let r = <UniqueArc<Qd> as Deserialize>::deserialize(De(0));
+    assert!(unsafe { DE_CALLS } == 1);
+    match r {
+        Ok(u) => {
+            assert!(ok && u.1 == v && u.0 == 1);
+            assert!(qd_drops() == (0, 0, 0, 0), "something was destroyed while the deserialised handle is alive");
+            assert!(n_live() == 1);
+            drop(u);
+            assert!(qd_drops() == (0, 1, 0, 0) && n_live() == 0, "the deserialised value must be destroyed exactly once, with its handle");
+        }
+        Err(_) => assert!(!ok && qd_drops() == (0, 0, 0, 0) && n_live() == 0),
+    }
+    kani::cover!(ok);
+});
